@@ -13,6 +13,12 @@ import XrsVerif.Gen.BufProgs
   inlined, `harness/facts_bufprog.py`).  Each is accepted by the checker (kernel evaluation), hence
   by part 1 no run of it writes an input or returns an input's memory -- except where the contract
   table (`Model/Meta.lean`) documents a view (trim, crop, custom_kernel).
+  Wrapper level (parts 1 and 2): every parameter is a raster object with three input buffers -- cells,
+  coordinates (the memory of its non-index coordinate variables), attrs dict -- and every xarray constructor / copy
+  primitive is an `Op.build` whose three components are fresh / deep / shallow / maybe according to the
+  primitive table `Gen.primTable` (probed on the real xarray on every run).  So `agg.copy(deep=False, data=out)`
+  (the result's coordinates are the input's) and `attrs = raster.attrs; attrs['unit'] = …` (the input's attrs dict
+  is written) are rejected by the checker, with the component named by the driver's diagnostics.
   Part 3 (identity): the returned `DataArray(out, coords=…, dims=…, attrs=…)` takes coords, dims and
   attrs from the input raster, for every function whose contract is `identity`.
   Not covered here (see design_notes/C10.md): that the buffer program abstracts the Python code
@@ -85,6 +91,33 @@ theorem safe_sound (k : Nat) (p : Prog) (s s' : St) (a0 : Taint) (ret : Nat)
     · have := henv ret b hb hlt; simp [this] at hsafe
     · exact Nat.le_of_not_lt hlt
 
+/-- **soundness at the wrapper level**: a program accepted by `safeAll` never writes an input buffer -- the cells,
+    the coordinates or the attrs of any parameter -- and none of the slots of the returned object (cells,
+    coordinates, attrs) points into one, for every branch taken, every iteration count and every run-time
+    resolution of the layout-dependent views and of the `maybe` components of the xarray primitives -/
+theorem safeAll_sound (k : Nat) (p : Prog) (s s' : St) (a0 : Taint) (rets : List Nat)
+    (h : Rel k s a0) (hsafe : safeAll p a0 rets = true) (hx : Exec p s s') :
+    (∀ b, b < k → s'.dirty b = false) ∧ (∀ r ∈ rets, ∀ b, s'.env r = some b → k ≤ b) := by
+  unfold safeAll at hsafe
+  cases hc : acheck p a0 with
+  | none => simp [hc] at hsafe
+  | some l =>
+    simp only [hc, List.all_eq_true] at hsafe
+    obtain ⟨_, henv, hd⟩ := acheck_sound hx h hc
+    refine ⟨hd, fun r hr b hb => ?_⟩
+    by_cases hlt : b < k
+    · have := henv r b hb hlt
+      have h2 := hsafe r hr
+      simp [this] at h2
+    · exact Nat.le_of_not_lt hlt
+
+/-- one xarray primitive, stated by itself: after `x = prim(…)` a component of `x` lies in an input buffer
+    only if its mode lets it share (`shallow` / `maybe`) and its source was tainted -/
+theorem build_step_sound {k : Nat} {s s' : St} {l : Taint} (a b c : Part)
+    (h : Rel k s l) (hx : OpStep (.build a b c) s s') :
+    Rel k s' (((l.bindPart l a).bindPart l b).bindPart l c) :=
+  step_rel hx h rfl
+
 /-- the weaker check used for the documented views (trim, crop): still no input is written -/
 theorem noInputWrite_sound (k : Nat) (p : Prog) (s s' : St) (a0 : Taint)
     (h : Rel k s a0) (hok : noInputWrite p a0 = true) (hx : Exec p s s') :
@@ -111,16 +144,29 @@ theorem public_inputs_never_written (e : Entry) (he : e ∈ allEntries) (s' : St
   unfold entryOk at hok
   split at hok
   · exact noInputWrite_sound e.k e.prog _ s' _ (rel_init e.k) hok hx
-  · exact (safe_sound e.k e.prog _ s' _ e.ret (rel_init e.k) hok hx).1
+  · exact (safeAll_sound e.k e.prog _ s' _ e.ret.slots (rel_init e.k) hok hx).1
 
 /-- **the result of a public function shares no buffer with an input**, unless the contract table
     documents a view (trim, crop, custom_kernel, get_dataarray_resolution) -/
 theorem public_output_fresh (e : Entry) (he : e ∈ allEntries) (hc : e.contract.retMayAlias = false)
-    (s' : St) (hx : Exec e.prog (init e.k) s') : ∀ b, s'.env e.ret = some b → e.k ≤ b := by
+    (s' : St) (hx : Exec e.prog (init e.k) s') :
+    (∀ b, s'.env e.ret.data = some b → e.k ≤ b) ∧ (∀ b, s'.env e.ret.coords = some b → e.k ≤ b) ∧
+    (∀ b, s'.env e.ret.attrs = some b → e.k ≤ b) := by
   have hok : entryOk e = true := List.all_eq_true.mp all_public_conform e he
   unfold entryOk at hok
   simp only [hc, Bool.false_eq_true, if_false] at hok
-  exact (safe_sound e.k e.prog _ s' _ e.ret (rel_init e.k) hok hx).2
+  have h := (safeAll_sound e.k e.prog _ s' _ e.ret.slots (rel_init e.k) hok hx).2
+  exact ⟨h _ (by simp [Obj.slots]), h _ (by simp [Obj.slots]), h _ (by simp [Obj.slots])⟩
+
+/-- every parameter of every public function contributes its three components to the input buffers the two
+    theorems above speak about: the `k` of an entry is three times its number of parameters, and the buffers are
+    named `p`, … `p.coords`, … `p.attrs`, … -/
+theorem inputs_are_components :
+    allEntries.all (fun e => e.k == e.params.length && e.k % 3 == 0 &&
+      (List.range (e.k / 3)).all (fun i =>
+        e.params.getD (e.k / 3 + i) "" == e.params.getD i "" ++ ".coords" &&
+        e.params.getD (2 * (e.k / 3) + i) "" == e.params.getD i "" ++ ".attrs")) = true := by
+  decide +kernel
 
 /-- the only functions allowed to return a view are the documented ones -/
 theorem views_are_documented :
@@ -166,7 +212,7 @@ theorem local_safe : [entry_local_cell_stats, entry_local_combine, entry_local_l
     `ravel`, kernels writing a parameter, dict / list elements, loop-carried aliases, early returns, closures,
     `out=`, `a, b = b, a`, …): every bad pattern is rejected and every harmless one accepted -/
 theorem translator_selftest :
-    selftest.all (fun t => safe t.2.1 (inputs t.2.2.1) t.2.2.2.1 == t.2.2.2.2) = true := by decide +kernel
+    selftest.all (fun t => safeAll t.2.1 (inputs t.2.2.1) t.2.2.2.1 == t.2.2.2.2) = true := by decide +kernel
 
 /-- nothing in any generated program was left unclassified by the translator -/
 theorem no_unknown_construct : allEntries.all (fun e => !e.prog.hasUnknown) = true := by decide +kernel
@@ -257,7 +303,38 @@ example : safe (Prog.ofItems [.op (.alloc 1), .op (.alloc 2),
 /-- the same loop without the write is accepted, and a branch that copies on one side only is joined -/
 example : safe (Prog.ofItems [.ite (Prog.ofItems [.op (.copyOf 1 0)]) (Prog.ofItems [.op (.viewOf 1 0)]),
     .op (.write 1)]) (inputs 1) 2 = false := by decide
+/-! wrapper level: input raster 0 owns the buffers 0 (cells), 1 (coordinates), 2 (attrs) -/
+/-- the template shape `result = agg.copy(deep=False, data=out)`: rejected … -/
+example : safeAll (Prog.ofItems [.op (.alloc 3),
+    .op (wprim_copy_shallow_data.build ⟨4, 5, 6⟩ (some 3) (some 1) (some 2))]) (inputs 3) [4, 5, 6] = false := by decide
+/-- … and it really has a run in which the coordinates of the result are the input's coordinate buffer while its
+    cells and attrs are fresh -/
+example : ∃ s', Exec (Prog.ofItems [.op (.alloc 3),
+    .op (wprim_copy_shallow_data.build ⟨4, 5, 6⟩ (some 3) (some 1) (some 2))]) (init 3) s' ∧
+    s'.env 5 = some 1 ∧ s'.env 4 = some 3 ∧ s'.env 6 = some 4 := by
+  refine ⟨_, .op (.alloc 3 _) (.op (.build _ _ _ true true false _ ?_ ?_ ?_) (.done _)), ?_, ?_, ?_⟩ <;>
+    simp [Part.admits, Part.mayShare, Part.mayCopy, wprim_copy_shallow_data, St.bindPart, St.bindTo,
+      St.bindFresh, init]
+/-- the constructor shape `DataArray(out, coords=agg.coords, dims=agg.dims, attrs=agg.attrs)` and the deep template
+    `agg.copy(deep=True, data=out)` are accepted -/
+example : safeAll (Prog.ofItems [.op (.alloc 3),
+    .op (wprim_DataArray.build ⟨4, 5, 6⟩ (some 3) (some 1) (some 2))]) (inputs 3) [4, 5, 6] = true := by decide
+example : safeAll (Prog.ofItems [.op (.alloc 3),
+    .op (wprim_copy_deep_data.build ⟨4, 5, 6⟩ (some 3) (some 1) (some 2))]) (inputs 3) [4, 5, 6] = true := by decide
+/-- `try: attrs = deepcopy(raster.attrs) except TypeError: attrs = raster.attrs` followed by `attrs['unit'] = …`:
+    rejected, and the run through the handler writes the input's attrs buffer -/
+example : safeAll (Prog.ofItems [.op (.copyOf 3 2), .ite (Prog.ofItems [.op (.viewOf 3 2)]) .done, .op (.write 3),
+    .op (.alloc 4), .op (wprim_DataArray.build ⟨5, 6, 7⟩ (some 4) (some 1) (some 3))]) (inputs 3) [5, 6, 7] = false := by
+  decide
+example : ∃ s', Exec (Prog.ofItems [.op (.copyOf 3 2), .ite (Prog.ofItems [.op (.viewOf 3 2)]) .done, .op (.write 3)])
+    (init 3) s' ∧ s'.dirty 2 = true := by
+  refine ⟨_, .op (.copyOf 3 2 _) (.iteL (.op (.viewOf 3 2 _) (.done _)) (.op (.write 3 _) (.done _))), ?_⟩
+  simp [St.bindTo, St.bindFresh, St.mark, init]
+/-- a `maybe` component (`astype(copy=False)`) is treated as shared although one resolution is harmless -/
+example : safeAll (Prog.ofItems [.op (wprim_astype_nocopy.build ⟨4, 5, 6⟩ (some 0) (some 1) (some 2)), .op (.write 4)])
+    (inputs 3) [] = false := by decide
 example : 50 ≤ allEntries.length := by decide
+example : primTable.length = 12 := by decide
 example : retConforms (.identity "agg" []) (.ctor (.input "agg") (.input "agg") (.input "agg") (.param "name")) = true := by
   decide
 example : retConforms (.identity "agg" []) (.ctor .absent (.input "agg") (.input "agg") (.param "name")) = false := by
